@@ -66,12 +66,6 @@ theorem C18_gen_once (Y : YieldFn) (F : BodyFn) (ts : List PTask) (w : World) (s
   rw [hl2, hs0, List.nil_append]
   exact ⟨List.nodup_iff_count.1 hnd t, List.nodup_iff_count.1 (hnd.sublist hl1) t⟩
 
-theorem stateOf_nv (P : Project) (w : World) (n : Nat) : stateOf P w (nv n) = lookup w.fs n := by
-  unfold stateOf
-  have h1 : isTaskV (nv n) = false := by unfold isTaskV nv; simp
-  have h2 : nv n / 2 = n := by unfold nv; omega
-  simp [h1, h2]
-
 /-- **C18_rerun_partial.** In a build that reached state `sm` and now hands out the (non-generator) task `t`, which has
 a still unresolved directory-pattern dependency `π`: if some file `n` matching `π` at this moment has no recorded state
 for `t` in the database or a recorded state different from its current content (`hasChanged`: the set *grew by a file
@@ -128,5 +122,54 @@ theorem C18_rerun_partial (Y : YieldFn) (F : BodyFn) (ts : List PTask) (w : Worl
   · right
     rw [reportChain_eval, h]
     simp [addReport]
+
+/-- **C18_rerun_full** — the property at full strength: a consumer of a directory pattern that succeeded in an earlier
+build (receiving the lists `e1.got`) and is reached by a later build (on any file system, with the database the
+earlier build left) is executed again — its function is called, or it fails for a missing node — whenever the lists of
+files matching its patterns at that moment differ from what it received then, or a matching file's content differs from
+what the earlier build left. **False of the current code** (finding F11): only per-file states are recorded, nothing
+records the composition of the set. -/
+def C18_rerun_full : Prop :=
+  ∀ (Y : YieldFn) (F : BodyFn) (ts : List PTask) (w : World) (picks1 : List Nat) (r1 : Prov.Result) (e1 : Recv)
+    (fs2 : FS) (s0 sm s' : Prov.Sess) (pre : List Nat) (t : Nat) (post : List Nat) (tk : PTask),
+    Prov.build Y F ts w picks1 = .ok r1 → (t, Outcome.success) ∈ r1.reports → e1 ∈ r1.recv → e1.task = t →
+    initSess ts ⟨fs2, r1.w.db⟩ = some s0 → loop Y F s0 pre = .ok sm → loop Y F sm (t :: post) = .ok s' →
+    findTask sm.tasks t = some tk → tk.gen = false → t ∉ sm.failMarks → (∀ sl ∈ tk.pdeps, sl.res = none) →
+    (setupProvisional { sm with so := sm.so.take [tv t] } t).stop = false →
+    (tk.pdeps.map (fun sl => sl.pat.glob sm.w.fs) ≠ e1.got ∨
+      ∃ π n, (⟨π, none⟩ : Slot) ∈ tk.pdeps ∧ n ∈ π.glob sm.w.fs ∧ lookup sm.w.fs n ≠ lookup r1.w.fs n) →
+    (stepOf Y F sm t).log = sm.log ++ [t] ∨ (t, Outcome.fail) ∈ (stepOf Y F sm t).reports
+
+/-! The F11 witness: one task over the pattern `[1000, 1005)` with product 200; build with files 1000, 1001; delete 1001; build. -/
+def f11Task : PTask := { id := 1, src := 9000, pdeps := [⟨⟨500000, 1000, 5⟩, none⟩], prods := [200] }
+def f11Y : YieldFn := fun _ _ => []
+def f11F : BodyFn := fun _ _ _ _ => 7
+def f11W : World := ⟨[(9000, 1), (1000, 5), (1001, 6)], []⟩
+def f11R1 : Prov.Result := match Prov.build f11Y f11F [f11Task] f11W [1] with | .ok r => r | .error _ => default
+def f11W2 : World := ⟨f11R1.w.fs.filter (fun e => e.1 != 1001), f11R1.w.db⟩
+
+set_option maxRecDepth 8000 in
+/-- **C18_rerun_full_false** (finding F11). First build: the consumer receives `[1000, 1001]` and succeeds. File 1001 is
+deleted. Second build: the consumer is `SKIP_UNCHANGED` although the matching set shrank. -/
+theorem C18_rerun_full_false : ¬ C18_rerun_full := by
+  intro h
+  have t1 : Prov.build f11Y f11F [f11Task] f11W [1] = .ok f11R1 := by rfl
+  have t2 : (initSess [f11Task] f11W2).all (fun s =>
+      (match loop f11Y f11F s [1] with | .ok _ => true | .error _ => false) &&
+      decide (findTask s.tasks 1 = some f11Task) && decide (1 ∉ s.failMarks) &&
+      decide ((setupProvisional { s with so := s.so.take [tv 1] } 1).stop = false) &&
+      decide (f11Task.pdeps.map (fun sl => sl.pat.glob s.w.fs) ≠ [[1000, 1001]]) &&
+      decide (¬ ((stepOf f11Y f11F s 1).log = s.log ++ [1] ∨ (1, Outcome.fail) ∈ (stepOf f11Y f11F s 1).reports))) = true ∧
+      (initSess [f11Task] f11W2).isSome = true := by
+    decide +kernel
+  cases hs : initSess [f11Task] f11W2 with
+  | none => rw [hs] at t2; exact absurd t2.2 (by simp)
+  | some s0 =>
+    rw [hs] at t2
+    simp only [Option.all_some, Bool.and_eq_true, decide_eq_true_eq] at t2
+    obtain ⟨⟨⟨⟨⟨⟨a1, a2⟩, a3⟩, a4⟩, a5⟩, a6⟩, _⟩ := t2
+    exact a6 (h f11Y f11F [f11Task] f11W [1] f11R1 ⟨1, [[1000, 1001]], [[1000, 1001]]⟩ f11W2.fs s0 s0
+      (stepOf f11Y f11F s0 1) [] 1 [] f11Task t1 (by decide +kernel) (by decide +kernel) rfl hs rfl (loop_one a1) a2 rfl a3
+      (by decide) a4 (Or.inl a5))
 
 end Pytask
